@@ -7,12 +7,17 @@
 (b) the one-step kernel assembled in numpy from the IMPLEMENTATION's conditionals: detailed balance with the
     implementation's `probability(space)`, rows sum to 1, pi K = pi; vs the model kernel (Gibbs.b_kernel /
     p_kernel) and its powers (Gibbs.kpow); on tiny sizes also the model's enumerated sampler law vs kpow.
-(c) `torch.bernoulli` wrapped in this process during `nn_state.sample` / `rbm.gibbs_steps`: the probability
-    tensors it receives must be the exact conditionals (brute-force tables) of the states produced by the
-    previous draws, order h,(a),v, exactly k steps; results 0/1 of shape (num_samples, nv); k = 0 returns the
-    start state; overwrite contract by storage identity; chains continued across calls; the recorded run is
-    replayed through the model's deterministic sampler (Gibbs.b_gibbs_steps / p_gibbs_steps) and storage
-    model (Gibbs.gibbs_call).
+(c) `torch.bernoulli` wrapped in this process during `nn_state.sample` / `rbm.gibbs_steps`.  The recorded calls are
+    interpreted by CONTENT, not by position or count: within a step every call must be the exact conditional
+    (brute-force tables) of a block of not-yet-drawn hidden or auxiliary units given the current visible state (either
+    layer first, whole layers or unit by unit), then of visible units given this step's latent draws; the result must
+    be the visible state after exactly k such steps.  If the calls cannot be read that way (draws made by other means,
+    other decomposition) the correspondence is reported broken and the net is decided by the statistical law test (d).
+    Results are 0/1 with the shape of the start state; k = 0 returns the start state; overwrite=False leaves the
+    caller's tensor untouched, overwrite=True leaves the result in the caller's tensor; start tensors: float64 2-D,
+    float32, int64, 1-D, 3-D, strided and row views; chains continued across calls; the canonically re-ordered run is
+    replayed through the model's deterministic sampler (Gibbs.b_gibbs_steps / p_gibbs_steps) and storage model
+    (Gibbs.gibbs_call with its same_dtype flag).
 (d) thorough tier (and the failing-input search): STATISTICAL TEST — empirical law of sample(k=1,2,
     initial_state) over 2e5 chains vs kernel^k with a Hoeffding bound at delta = 1e-9 per cell."""
 import itertools, math, time
@@ -28,9 +33,12 @@ RULE = ("state types positive / complex / density; shapes nv,nh in 1..4, na in 1
 ASSUMPTIONS = ["torch.bernoulli(p) returns independent 0/1 draws with P(1) = p per entry (trusted; the thorough tier adds a "
                "Hoeffding-bounded statistical test of the end-to-end law, labelled as a test)",
                "torch matmul/sigmoid implement the real functions up to rounding (tolerance 1e-9 relative)",
-               "initial_state tensors are CPU double tensors (the documented exception for device/dtype moves is not exercised)"]
+               "all tensors are on the CPU (the documented device exception of overwrite is not exercised)"]
 
 HOEFFDING_DELTA = 1e-9
+# relative tolerance for oracle relations that compare DIFFERENT float paths (torch's softplus returns x above its
+# threshold 20, dropping log1p(e^-20) = 2.1e-9 from log-probabilities; exact sigmoids / brute-force sums do not)
+RT = 1e-7
 
 
 # ----------------------------------------------------------------------------- helpers
@@ -136,13 +144,20 @@ def draw_net(ctx, kind, nv, nh, na):
     if kind == "density":
         params = gen.prbm_params(ctx, nv, nh, na)
         php = gen.prbm_params(ctx, nv, nh, na, phase=True)
+        biases = params[2:]
     else:
         params = gen.brbm_params(ctx, nv, nh)
         php = gen.brbm_params(ctx, nv, nh) if kind == "complex" else None
+        biases = params[1:]
+    # the quantifier allows magnitudes up to ~30: in a third of the draws one bias entry is large (log-uniform 1e-3..30)
+    if ctx.rng.random() < 0.33:
+        bvec = biases[int(ctx.rng.integers(len(biases)))]
+        bvec[int(ctx.rng.integers(len(bvec)))] = float(np.exp(ctx.rng.uniform(np.log(1e-3), np.log(30.0))) * ctx.rng.choice([-1.0, 1.0]))
+        ctx.count("large_bias_draw")
     return Net(kind, nv, nh, na, params, php)
 
 
-def close_rel(a, b, rtol=1e-9, atol=1e-12):
+def close_rel(a, b, rtol=RT, atol=1e-12):
     a = np.asarray(a, dtype=float); b = np.asarray(b, dtype=float)
     if a.shape != b.shape:
         return False
@@ -241,7 +256,7 @@ def check_kernel(ctx, net):
     m = ctx.get_model()
     case = net.case(part="kernel")
     nv = net.nv
-    ok, prob = ctx.call("probability(space)", case, lambda: tnp(net.state.probability(net.state.generate_hilbert_space())))
+    ok, prob = ctx.call("probability(space)", case, lambda: tnp(net.state.probability(torch.tensor(net.V, dtype=torch.double))))
     if not ok:
         return
     ok, prob1 = ctx.call("probability(v) 1-D", case, lambda: float(net.state.probability(torch.tensor(net.V[-1], dtype=torch.double))))
@@ -249,13 +264,13 @@ def check_kernel(ctx, net):
     net.K_impl, net.pi = K, prob
     # the reported distribution is the visible marginal of the joint the conditionals belong to
     ctx.require("probability(space) is the visible marginal of the joint Boltzmann weight",
-                close_rel(np.log(prob), net.log_marg_v, rtol=1e-9, atol=1e-9), case,
+                close_rel(np.log(prob), net.log_marg_v, rtol=RT, atol=RT), case,
                 {"log probability": np.log(prob).tolist(), "log marginal": net.log_marg_v.tolist()})
     if ok:
-        ctx.require("probability 1-D form equals the batched entry", math.isclose(prob1, prob[-1], rel_tol=1e-9), case)
+        ctx.require("probability 1-D form equals the batched entry", math.isclose(prob1, prob[-1], rel_tol=RT), case)
     F = prob[:, None] * K
     scale = float(np.max(F))
-    db = np.abs(F - F.T) <= 1e-9 * np.maximum(np.abs(F), np.abs(F.T)) + 1e-12 * scale
+    db = np.abs(F - F.T) <= RT * np.maximum(np.abs(F), np.abs(F.T)) + 1e-12 * scale
     i, j = np.unravel_index(np.argmin(db), db.shape)
     ctx.require("detailed balance: probability(s) K(s,s') == probability(s') K(s',s)", bool(db.all()), case,
                 {"s": net.V[i].tolist(), "s'": net.V[j].tolist(), "lhs": float(F[i, j]), "rhs": float(F[j, i])})
@@ -264,10 +279,10 @@ def check_kernel(ctx, net):
                 case, {"row sums": rows.tolist()})
     piK = prob @ K
     ctx.require("invariance: sum_s probability(s) K(s,s') == probability(s')",
-                bool(np.all(np.abs(piK - prob) <= 1e-9 * np.abs(prob) + 1e-12 * prob.max())), case,
+                bool(np.all(np.abs(piK - prob) <= RT * np.abs(prob) + 1e-12 * prob.max())), case,
                 {"pi K": piK.tolist(), "pi": prob.tolist()})
     ctx.require("kernel assembled from the implementation's conditionals is the exact block-Gibbs kernel",
-                bool(np.allclose(K, net.K_exact, rtol=1e-9, atol=1e-12)), case,
+                bool(np.allclose(K, net.K_exact, rtol=RT, atol=1e-12)), case,
                 {"impl": K.tolist(), "exact": net.K_exact.tolist()})
     # ---- correspondence with the Coq model
     fn = "c05_p_" if net.purif else "c05_b_"
@@ -277,7 +292,7 @@ def check_kernel(ctx, net):
         mE = m.call("c05_p_eff_energy", *net.params, net.V)
     else:
         mE = m.call("b_eff_energy", *net.params, net.V)
-    ctx.agree("log probability", np.log(prob), [-e for e in mE], case, rtol=1e-9, atol=1e-9)
+    ctx.agree("log probability", np.log(prob), [-e for e in mE], case, rtol=RT, atol=RT)
     latent = net.nh + (net.na if net.purif else 0)
     ks = [2] if 4 * nv + latent <= 17 else []          # cost of the model's recursive kpow: 2^((k+2) nv + latent)
     if 5 * nv + latent <= 15:
@@ -287,7 +302,7 @@ def check_kernel(ctx, net):
         ctx.agree("k-step kernel (k=%d)" % k, np.linalg.matrix_power(K, k), mKk, case)
         Kk = np.linalg.matrix_power(K, k)
         ctx.require("k-step invariance: probability K^k == probability",
-                    bool(np.all(np.abs(prob @ Kk - prob) <= 1e-9 * np.abs(prob) + 1e-12 * prob.max())), case, {"k": k})
+                    bool(np.all(np.abs(prob @ Kk - prob) <= RT * np.abs(prob) + 1e-12 * prob.max())), case, {"k": k})
     mK0 = m.call(fn + "kpow", *net.params, nv, 0)
     ctx.agree_exact("k = 0 kernel is the identity", [[float(x) for x in r] for r in mK0], np.eye(2 ** nv).tolist(), case)
     # model-internal: enumerated law of the deterministic sampler == kpow (validates extraction of the theorem's objects)
@@ -315,6 +330,9 @@ class BernoulliSpy:
 
         def wrapped(inp, *a, **k):
             p = inp.detach().clone()
+            pa = a[0] if a and isinstance(a[0], (int, float)) else k.get("p")
+            if isinstance(pa, (int, float)):                    # torch.bernoulli(input, p): input only gives the shape
+                p = spy.torch.full_like(p, float(pa), dtype=spy.torch.double)
             out = spy.orig(inp, *a, **k)
             spy.calls.append({"p": p.numpy().astype(float), "out": out.detach().clone().numpy().astype(float),
                               "out_kw": k.get("out") is not None})
@@ -331,97 +349,148 @@ def is01(x):
     return bool(np.all((x == 0.0) | (x == 1.0)))
 
 
-def verify_run(ctx, net, case, calls, v_start, result, k, what):
-    """The recorded torch.bernoulli calls of one k-step run must be: per step P(h|v), [P(a|v)], P(v|h[,a]) of the
-    states produced by the previous draws; the result is the last visible draw (the start state if k = 0)."""
-    per = net.per
-    N = v_start.shape[0]
-    good = True
-    if len(calls) != per * k:
-        if (len(calls) == per * k + 1 and calls[0]["p"].shape[-1:] == (net.nv,) and bool(np.all(calls[0]["p"] == 0.5))
-                and "num_samples" not in what):
-            ctx.require(what + ": the chain starts from the given initial_state (a fresh random start state was drawn instead)",
-                        False, case, "first torch.bernoulli call had p = 0.5 everywhere")
-            return False
-        if len(calls) < per * k:
-            # fewer torch.bernoulli calls than draws of a k-step run: (some) draws are made by other means, so they
-            # cannot be tied to their conditionals one by one.  This breaks the correspondence (not yet the property):
-            # the net falls back to the end-to-end statistical test of the k-step law, which yields the failing input
-            # if the law is wrong; otherwise the verdict names this correspondence (no-failing-input-found).
-            if not getattr(net, "unobserved", False):
-                ctx.disagreements.append({"what": what + ": torch.bernoulli call sequence differs from the model's draw order "
-                                                  "(observation point missing)", "case": case,
-                                          "detail": "expected %d draws, observed %d" % (per * k, len(calls))})
-            net.unobserved = True
-            ctx.count("bernoulli_not_observed")
-            ctx.require(what + ": result has shape (num_samples, nv) with 0/1 entries",
-                        result.shape == (N, net.nv) and is01(result), case, {"shape": list(result.shape)})
-            return False
-        ctx.require(what + ": exactly k block-Gibbs steps (h,%sv draws per step)" % ("a," if net.purif else ""),
-                    False, case, "expected %d torch.bernoulli draws, observed %d" % (per * k, len(calls)))
-        return False
+def _as_rows(x, M):
+    """view a recorded tensor as (M chains) x (units); None if it cannot be"""
+    x = np.asarray(x, dtype=float)
+    if x.size == 0 or x.size % M != 0:
+        return None
+    return x.reshape(M, -1)
+
+
+def interpret_run(net, calls, v_start, k_min):
+    """Interpret the recorded torch.bernoulli calls as block-Gibbs steps from v_start (M x nv), WITHOUT assuming a
+    call structure: a call may cover any contiguous block of not-yet-drawn units of the hidden or auxiliary layer
+    (either layer first, whole layers, several layers stacked, or one unit at a time), recognised by content: its
+    probabilities must be the exact conditionals of those units given the CURRENT visible state; once every latent
+    unit of the step is drawn, calls are matched the same way against the exact conditionals of the visible units
+    given THIS step's latent draws.  Returns (steps, reason): steps = canonical per-step dicts
+    {ph, pa, pv, h, a, v} for every completed step; reason = None or a text saying which call could not be read."""
+    M = v_start.shape[0]
     cur = v_start
-    for t in range(k):
-        c = calls[per * t: per * (t + 1)]
-        exp_h = net.exp_ph(cur)
-        good &= ctx.require(what + ": hidden units drawn from the exact conditional of the current visible state",
-                            c[0]["p"].shape == exp_h.shape and close_rel(c[0]["p"], exp_h), case,
-                            {"step": t, "requested": c[0]["p"].tolist(), "exact": exp_h.tolist(), "visible": cur.tolist()})
-        h = c[0]["out"]
-        good &= ctx.require(what + ": hidden draw is a 0/1 array of shape (N, nh)", h.shape == (N, net.nh) and is01(h), case)
-        if not good:
-            return False
-        a = None
+    steps = []
+    layers = [("h", net.nh)] + ([("a", net.na)] if net.purif else [])
+
+    def new_step():
+        exp = {"h": net.exp_ph(cur)}
         if net.purif:
-            exp_a = net.exp_pa(cur)
-            good &= ctx.require(what + ": auxiliary units drawn from the exact conditional of the current visible state",
-                                c[1]["p"].shape == exp_a.shape and close_rel(c[1]["p"], exp_a), case,
-                                {"step": t, "requested": c[1]["p"].tolist(), "exact": exp_a.tolist(), "visible": cur.tolist()})
-            a = c[1]["out"]
-            good &= ctx.require(what + ": auxiliary draw is a 0/1 array of shape (N, na)", a.shape == (N, net.na) and is01(a), case)
-            if not good:
-                return False
-        exp_v = net.exp_pv(h, a)
-        good &= ctx.require(what + ": visible units drawn from the exact conditional of this step's hidden%s draws"
-                            % (" and auxiliary" if net.purif else ""),
-                            c[-1]["p"].shape == exp_v.shape and close_rel(c[-1]["p"], exp_v), case,
-                            {"step": t, "requested": c[-1]["p"].tolist(), "exact": exp_v.tolist(), "hidden": h.tolist(),
-                             "aux": None if a is None else a.tolist()})
-        cur = c[-1]["out"]
-        good &= ctx.require(what + ": visible draw is a 0/1 array of shape (N, nv)", cur.shape == (N, net.nv) and is01(cur), case)
-        if not good:
-            return False
-    good &= ctx.require(what + ": result has shape (num_samples, nv) with 0/1 entries",
-                        result.shape == (N, net.nv) and is01(result), case, {"shape": list(result.shape)})
-    good &= ctx.require(what + (": result is the last visible draw" if k > 0 else ": k = 0 returns the start state"),
-                        result.shape == cur.shape and bool(np.array_equal(result, cur)), case,
-                        {"result": result.tolist(), "expected": cur.tolist()})
-    return good
+            exp["a"] = net.exp_pa(cur)
+        return {"exp": exp, "val": {n: np.full((M, sz), np.nan) for n, sz in layers},
+                "req": {n: np.full((M, sz), np.nan) for n, sz in layers},
+                "pv": np.full((M, net.nv), np.nan), "v": np.full((M, net.nv), np.nan), "expv": None}
+
+    st = new_step()
+    orders = [layers, layers[::-1]] if net.purif else [layers]
+    for ci, c in enumerate(calls):
+        P, D = _as_rows(c["p"], M), _as_rows(c["out"], M)
+        if P is None or D is None or P.shape != D.shape:
+            return steps, "call %d: tensor of shape %s cannot be read as draws for %d chains" % (ci, list(np.shape(c["p"])), M)
+        m = P.shape[1]
+        latent_open = any(np.isnan(st["val"][n]).any() for n, _ in layers)
+        placed = False
+        if latent_open:
+            for order in orders:
+                seq = [(n, j) for n, sz in order for j in range(sz)]
+                for start in range(len(seq) - m + 1):
+                    cols = seq[start:start + m]
+                    if any(not np.isnan(st["val"][n][0, j]) for n, j in cols):
+                        continue
+                    E = np.stack([st["exp"][n][:, j] for n, j in cols], axis=1)
+                    if close_rel(P, E, rtol=RT):
+                        for q, (n, j) in enumerate(cols):
+                            st["val"][n][:, j] = D[:, q]
+                            st["req"][n][:, j] = P[:, q]
+                        placed = True
+                        break
+                if placed:
+                    break
+            if not placed:
+                return steps, ("call %d (%d units per chain) in step %d is not the exact conditional of any block of "
+                               "not-yet-drawn hidden%s units given the current visible state"
+                               % (ci, m, len(steps), "/auxiliary" if net.purif else ""))
+            if not all(is01(st["val"][n][~np.isnan(st["val"][n])]) for n, _ in layers):
+                return steps, "call %d: latent draw is not 0/1" % ci
+            continue
+        if st["expv"] is None:
+            st["expv"] = net.exp_pv(st["val"]["h"], st["val"]["a"] if net.purif else None)
+        for start in range(net.nv - m + 1):
+            if not np.isnan(st["v"][0, start:start + m]).all():
+                continue
+            if close_rel(P, st["expv"][:, start:start + m], rtol=RT):
+                st["v"][:, start:start + m] = D
+                st["pv"][:, start:start + m] = P
+                placed = True
+                break
+        if not placed:
+            return steps, ("call %d (%d units per chain) in step %d is not the exact conditional of any block of "
+                           "not-yet-drawn visible units given this step's latent draws" % (ci, m, len(steps)))
+        if not np.isnan(st["v"]).any():
+            if not is01(st["v"]):
+                return steps, "call %d: visible draw is not 0/1" % ci
+            steps.append({"ph": st["req"]["h"], "pa": st["req"].get("a"), "pv": st["pv"],
+                          "h": st["val"]["h"], "a": st["val"].get("a"), "v": st["v"]})
+            cur = st["v"]
+            st = new_step()
+    return steps, None
 
 
-def model_replay(ctx, net, case, calls, v_start, result, k, overwrite, same_storage, v_after):
-    """Replay the recorded draws through the model's deterministic sampler and storage model (per chain)."""
+def verify_run(ctx, net, case, calls, v_start, result, k, what):
+    """Returns the canonical steps (list, possibly empty for k = 0) when the run is tied draw by draw to the exact
+    conditionals and the result is the visible state after exactly k steps; None otherwise (an oracle failure has been
+    recorded, or the call structure could not be interpreted and the net falls back to the statistical law test)."""
+    M = v_start.shape[0]
+    res2 = _as_rows(result, M)
+    if res2 is None or res2.shape != (M, net.nv):
+        return None                                  # shape failure is reported by the caller
+    steps, reason = interpret_run(net, calls, v_start, k)
+    states = [v_start] + [s["v"] for s in steps]
+    if reason is None and len(steps) >= k and np.array_equal(res2, states[k]):
+        if len(steps) > k or len(calls) == 0 and k > 0:
+            ctx.count("extra_draws_after_result")
+        return steps[:k]
+    if reason is None and len(steps) > k and any(np.array_equal(res2, states[j]) for j in range(k + 1, len(steps) + 1)):
+        j = [j for j in range(k + 1, len(steps) + 1) if np.array_equal(res2, states[j])][0]
+        ctx.require(what + ": exactly k block-Gibbs steps", False, case,
+                    "every draw is an exact conditional, but the result is the visible state after %d steps, not %d" % (j, k))
+        return None
+    # the structure of the torch.bernoulli calls could not be tied to k exact block-Gibbs steps.  This breaks the
+    # correspondence (not yet the property: draws may be made by other means); the net falls back to the end-to-end
+    # statistical test of the k-step law, which yields the failing input if the law is wrong.
+    if not getattr(net, "unobserved", False):
+        ctx.disagreements.append({"what": what + ": torch.bernoulli calls cannot be read as k exact block-Gibbs steps "
+                                                 "(decided by the statistical law test instead)", "case": case,
+                                  "detail": reason or ("%d complete steps read from %d calls, result is not the visible state "
+                                                       "after step %d" % (len(steps), len(calls), k))})
+    net.unobserved = True
+    ctx.count("bernoulli_not_interpretable")
+    return None
+
+
+def model_replay(ctx, net, case, steps, v_start, res2, k, overwrite, same_dtype, v_after2):
+    """Replay the (canonically ordered) recorded draws through the model's deterministic sampler and storage model."""
     m = ctx.get_model()
     fn = "c05_p_gibbs" if net.purif else "c05_b_gibbs"
+    keys = (("ph", "h"), ("pa", "a"), ("pv", "v")) if net.purif else (("ph", "h"), ("pv", "v"))
     for i in range(min(v_start.shape[0], 3)):
-        draws = [c["out"][i].tolist() for c in calls]
+        draws = [s[d][i].tolist() for s in steps for _, d in keys]
+        probs = [s[q][i] for s in steps for q, _ in keys]
         fin, reqs = m.call(fn, *net.params, k, v_start[i].tolist(), draws)
-        ctx.agree_exact("sampler: number of requested probability vectors", len(calls), len(reqs), case)
-        for j, (c, rq) in enumerate(zip(calls, reqs)):
-            ctx.agree("sampler: probability vector requested for draw %d" % j, c["p"][i], rq, case, rtol=1e-9, atol=1e-12)
-        ctx.agree_exact("sampler: final state", [float(x) for x in result[i]], [float(x) for x in fin], case)
-        hp, ret = m.call("c05_call", net.per - 1, overwrite, k, [v_start[i].tolist()], 0, draws)
-        ctx.agree_exact("storage: returned tensor is the caller's tensor", bool(same_storage), int(ret) == 0, case)
-        ctx.agree_exact("storage: caller's tensor after the call", [float(x) for x in v_after[i]], [float(x) for x in hp[0]], case)
-        ctx.agree_exact("storage: returned tensor content", [float(x) for x in result[i]], [float(x) for x in hp[int(ret)]], case)
+        ctx.agree_exact("sampler: number of probability vectors requested in k steps", len(probs), len(reqs), case)
+        for j, (pq, rq) in enumerate(zip(probs, reqs)):
+            ctx.agree("sampler: conditional used for draw %d (canonical order)" % j, pq, rq, case, rtol=RT, atol=1e-12)
+        ctx.agree_exact("sampler: final state", [float(x) for x in res2[i]], [float(x) for x in fin], case)
+        hp, ret = m.call("c05_call", net.per - 1, overwrite, same_dtype, k, [v_start[i].tolist()], 0, draws)
+        ctx.agree_exact("storage: caller's tensor after the call", [float(x) for x in v_after2[i]], [float(x) for x in hp[0]], case)
+        ctx.agree_exact("storage: returned tensor content", [float(x) for x in res2[i]], [float(x) for x in hp[int(ret)]], case)
     ctx.traces += 1
 
 
-def one_run(ctx, net, k, overwrite, v0, via, seed):
+def one_run(ctx, net, k, overwrite, v0, via, seed, form="2d"):
     """One call of sample / gibbs_steps with a given start tensor; all checks of part (c). Returns the result tensor."""
     import torch
-    case = net.case(part="sampler", k=k, overwrite=overwrite, via=via, torch_seed=seed,
-                    initial_state=tnp(v0).tolist())
+    dt = str(v0.dtype).replace("torch.", "")
+    non_double = (v0.dtype != torch.double)
+    case = net.case(part="sampler", k=k, overwrite=overwrite, via=via, torch_seed=seed, start_form=form,
+                    start_dtype=dt, non_double_start=non_double, initial_state=tnp(v0).tolist())
     what = "%s(k=%d, overwrite=%s)" % (via, k, overwrite)
     before = v0.detach().clone()
     ptr = v0.data_ptr()
@@ -429,29 +498,58 @@ def one_run(ctx, net, k, overwrite, v0, via, seed):
     with BernoulliSpy() as spy:
         if via == "sample":
             ok, res = ctx.call(what, case, lambda: net.state.sample(k, initial_state=v0, overwrite=overwrite))
+        elif via == "sample(num_samples ignored)":
+            ok, res = ctx.call(what, case, lambda: net.state.sample(k, 7, initial_state=v0, overwrite=overwrite))
         else:
             ok, res = ctx.call(what, case, lambda: net.rbm.gibbs_steps(k, v0, overwrite=overwrite))
+    ctx.count("run:%s:k=%d:ow=%s" % (via, k, overwrite))
+    ctx.count("start:%s:%s" % (form, dt))
     if not ok:
         return None
     if not ctx.require(what + ": returns a tensor", isinstance(res, torch.Tensor), case, type(res).__name__):
         return None
     result = tnp(res)
-    good = verify_run(ctx, net, case, spy.calls, tnp(before), result, k, what)
-    if getattr(net, "unobserved", False):
-        good = True                      # storage contract is still checked below
+    if not ctx.require(what + ": result is a 0/1 array with the shape of the start state (chains..., nv)",
+                       tuple(result.shape) == tuple(v0.shape) and is01(result), case,
+                       {"shape": list(result.shape), "start shape": list(v0.shape)}):
+        return None
+    M = int(np.prod(v0.shape[:-1])) if v0.dim() > 1 else 1
+    start2 = tnp(before).reshape(M, net.nv)
+    res2 = result.reshape(M, net.nv)
+    steps = verify_run(ctx, net, case, spy.calls, start2, res2, k, what)
     same = (res.data_ptr() == ptr)
+    ctx.count("returns_callers_storage:%s:%s" % ("overwrite" if overwrite else "no-overwrite", same))
+    after2 = tnp(v0).reshape(M, net.nv)
+    good = True
     if overwrite:
-        good &= ctx.require(what + ": overwrite=True returns the caller's tensor (same storage)", same, case)
-        good &= ctx.require(what + ": overwrite=True updates the caller's tensor in place",
-                            bool(torch.equal(v0, res)), case, {"caller": tnp(v0).tolist(), "result": result.tolist()})
+        # the statement: "... unless overwriting was requested, and then it is updated in place"
+        good &= ctx.require("overwrite=True updates the caller's start state in place",
+                            bool(np.array_equal(after2, res2)), case,
+                            {"call": what, "caller after": after2.tolist(), "result": res2.tolist(), "caller before": start2.tolist()})
     else:
-        good &= ctx.require(what + ": overwrite=False leaves the caller's tensor unchanged", bool(torch.equal(v0, before)), case,
-                            {"before": tnp(before).tolist(), "after": tnp(v0).tolist()})
-        good &= ctx.require(what + ": overwrite=False returns different storage", not same, case)
-    if good and len(spy.calls) == net.per * k:
-        model_replay(ctx, net, case, spy.calls, tnp(before), result, k, overwrite, same, tnp(v0))
-    ctx.count("run:%s:k=%d:ow=%s" % (via, k, overwrite))
+        good &= ctx.require(what + ": overwrite=False leaves the caller's start state untouched",
+                            bool(torch.equal(v0, before)), case, {"before": start2.tolist(), "after": after2.tolist()})
+    if steps is not None and (good or non_double):
+        model_replay(ctx, net, case, steps, start2, res2, k, overwrite, not non_double, after2)
     return res
+
+
+def start_forms(ctx, net, N=3):
+    """start tensors of the forms the quantifier's "every start state" covers: (form name, tensor)"""
+    import torch
+    rng = ctx.rng
+    rows = lambda n: net.V[rng.integers(len(net.V), size=n)]
+    big = torch.zeros(N, 2 * net.nv, dtype=torch.double)
+    big[:, ::2] = torch.tensor(rows(N), dtype=torch.double)
+    base = torch.zeros(N + 2, net.nv, dtype=torch.double)
+    base[1:N + 1] = torch.tensor(rows(N), dtype=torch.double)
+    return [("2d", torch.tensor(rows(N), dtype=torch.double)),
+            ("2d", torch.tensor(rows(N), dtype=torch.float32)),
+            ("2d", torch.tensor(rows(N), dtype=torch.int64)),
+            ("1d", torch.tensor(rows(1)[0], dtype=torch.double)),
+            ("3d", torch.tensor(rows(4).reshape(2, 2, net.nv), dtype=torch.double)),
+            ("strided-view", big[:, ::2]),
+            ("row-view", base[1:N + 1])]
 
 
 def check_sampler(ctx, net, ks=(0, 1, 2, 3)):
@@ -473,7 +571,14 @@ def check_sampler(ctx, net, ks=(0, 1, 2, 3)):
     # gibbs_steps called directly on the RBM, all start states at once
     v0 = torch.tensor(net.V, dtype=torch.double)
     one_run(ctx, net, 1, False, v0, "gibbs_steps", ctx.torch_seed())
-    # sample(k, num_samples) without initial_state
+    # other forms of start tensor: float32 / int64 / 1-D / 3-D / non-contiguous views, overwrite on and off
+    forms = start_forms(ctx, net)
+    for fi, (form, v0) in enumerate(forms):
+        for overwrite in (False, True):
+            k = int(rng.integers(1, 4))
+            via = ("sample", "gibbs_steps", "sample(num_samples ignored)")[(fi + int(overwrite)) % 3]
+            one_run(ctx, net, k, overwrite, v0.clone() if form in ("2d", "1d", "3d") else v0, via, ctx.torch_seed(), form=form)
+    # sample(k, num_samples) without initial_state: shape, 0/1; the chain is tied to the start state when that is observable
     for k, n in ((0, 4), (2, 5)):
         case = net.case(part="sampler", k=k, num_samples=n, via="sample(num_samples)")
         what = "sample(k=%d, num_samples=%d)" % (k, n)
@@ -482,25 +587,21 @@ def check_sampler(ctx, net, ks=(0, 1, 2, 3)):
             ok, res = ctx.call(what, case, lambda: net.state.sample(k, n))
         if not ok:
             continue
-        result = tnp(res)
-        ctx.require(what + ": result has shape (num_samples, nv) with 0/1 entries",
-                    result.shape == (n, net.nv) and is01(result), case, {"shape": list(result.shape)})
+        result = tnp(res) if hasattr(res, "detach") else np.asarray(res)
+        if not ctx.require(what + ": result has shape (num_samples, nv) with 0/1 entries",
+                           result.shape == (n, net.nv) and is01(result), case, {"shape": list(result.shape)}):
+            continue
         calls = spy.calls
-        if len(calls) == net.per * k + 1:
-            init = calls[0]
-            ctx.require(what + ": uniform random start state of shape (num_samples, nv)",
-                        init["p"].shape == (n, net.nv) and bool(np.all(init["p"] == 0.5)), case, init["p"].tolist())
-            if init["out"].shape == (n, net.nv):
-                if verify_run(ctx, net, case, calls[1:], init["out"], result, k, what):
-                    ctx.traces += 1
-        elif len(calls) == net.per * k:
-            # start state drawn by other means than torch.bernoulli: nothing to tie the first hidden draw to
-            ctx.count("start_state_not_observed")
-        elif getattr(net, "unobserved", False) and len(calls) < net.per * k + 1:
-            ctx.count("bernoulli_not_observed")
+        tied = False
+        if calls and np.shape(calls[0]["out"]) == (n, net.nv) and is01(calls[0]["out"]):
+            steps, reason = interpret_run(net, calls[1:], calls[0]["out"], k)
+            states = [calls[0]["out"]] + [s["v"] for s in steps]
+            tied = reason is None and len(steps) >= k and np.array_equal(result, states[k])
+            ctx.count("start_distribution_p=%s" % ("0.5" if np.all(calls[0]["p"] == 0.5) else "other"))
+        if tied:
+            ctx.traces += 1
         else:
-            ctx.require(what + ": exactly k block-Gibbs steps after the start state is drawn", False, case,
-                        "observed %d torch.bernoulli draws, expected %d" % (len(calls), net.per * k + 1))
+            ctx.count("random_start_run_not_tied_to_draws")     # informational: the start state is not part of the statement
 
 
 # ----------------------------------------------------------------------------- (d) statistical test
